@@ -171,7 +171,7 @@ pub fn run(ctx: &Ctx) -> PropResult {
     let mut all: Vec<&'static IfaceDesc> = vec![ctx.iface("mini"), ctx.iface("pzoo"), ctx.iface("qdev2"), ctx.iface("qdev10")];
     all.extend(ctx.random_ifaces());
     let shards = 64usize;
-    let cases = ctx.scaled(if ctx.thorough { 40_000 } else { 2_500 });
+    let cases = ctx.scaled(if ctx.thorough { 150_000 } else { 10_000 });
     let accs = par::run_shards(shards, ctx.threads, |i| shard(ctx, &all, i, cases), |h| ctx.on_hang(h));
     let mut distinct = HashSet::new();
     let mut by_api: BTreeMap<&'static str, u64> = BTreeMap::new();
